@@ -876,6 +876,9 @@ class Overlay(Widget, WidgetContainerMixin, WidgetContainerListContentsMixin, ty
 
         top_c = self.top_w.render(self.top_w_size(real_size, left, right, top, bottom), focus)
         top_c = CompositeCanvas(top_c)
+        if not top_c.cols() or not top_c.rows():
+            # a top widget without rows (e.g. an empty Pile with height='pack') covers nothing
+            return CompositeCanvas(bottom_c)
         if left < 0 or right < 0:
             top_c.pad_trim_left_right(min(0, left), min(0, right))
         if top < 0 or bottom < 0:
